@@ -171,8 +171,12 @@ class RefWorld:
             self._sc[key] = truth.truth_scalar(self.sc, name, f)
         F = self._sc[key]
         J, I = self.cell(np.asarray(X, float), np.asarray(Y, float))
-        klo, khi, _, _ = self.vertical(np.asarray(X, float), np.asarray(Y, float), np.asarray(Z, float))
-        return F[klo, J, I], F[khi, J, I]
+        klo, khi, _, near = self.vertical(np.asarray(X, float), np.asarray(Y, float), np.asarray(Z, float))
+        lo, hi = F[klo, J, I].copy(), F[khi, J, I].copy()
+        # a depth within 1e-9 m of an s-level is a tie between two brackets: not judged (NaN never differs)
+        lo[near] = np.nan
+        hi[near] = np.nan
+        return lo, hi
 
     def scalar_any_frame(self, name: str, value: float):
         """which (frame, level, j, i) carries this identifying value (for diagnostics)"""
